@@ -126,6 +126,11 @@ def readLines (log : List Ev) : List Str :=
 def inputLines (log : List Ev) : List Str :=
   (log.filterMap fun e => match e with | .cb _ .input _ (some l) => some l | _ => none).reverse
 
+/-- the `InputReceivedSignal` the reader thread of request `r` enqueues for the next typed line
+(the empty line at end of input) -/
+def readSig (c : Cfg) (r : Nat) : Sig :=
+  { id := c.nextSid + 1, cls := .inputReceived, prio := 0, src := .req r, line := c.A.stdin.headD [] }
+
 /-- the trace event `enqueue_signal` leaves for `s` in configuration `c` -/
 def enqEvent (c : Cfg) (s : Sig) : Tr :=
   if c.L.forceQuit then .dropped s else .enq (c.L.route s.src) s
